@@ -43,24 +43,55 @@ var users = []struct{ name, pw, role string }{
 	{"msg1", "pw-msg1", "message"}, {"obs1", "pw-obs1", "observe"},
 }
 
+func groupDescOf(i int) map[string]any {
+	g := groupNames[i]
+	us := map[string]any{}
+	for _, u := range users {
+		us[u.name] = map[string]any{"password": u.pw, "permissions": u.role}
+	}
+	d := map[string]any{"users": us, "wildcard-user": map[string]any{"password": map[string]any{"type": "wildcard"}, "permissions": []string{"present", "message"}[i%2]}}
+	if i == 0 {
+		d["allow-recording"] = true
+	}
+	if i == 1 {
+		d["unrestricted-tokens"] = true
+	}
+	if g == "moved" {
+		d["redirect"] = "https://elsewhere.example/group/moved/"
+	}
+	return d
+}
+
 func writeGroups(s *vsrv.Server) {
 	for i, g := range groupNames {
-		us := map[string]any{}
-		for _, u := range users {
-			us[u.name] = map[string]any{"password": u.pw, "permissions": u.role}
-		}
-		d := map[string]any{"users": us, "wildcard-user": map[string]any{"password": map[string]any{"type": "wildcard"}, "permissions": []string{"present", "message"}[i%2]}}
-		if i == 0 {
-			d["allow-recording"] = true
-		}
-		if i == 1 {
-			d["unrestricted-tokens"] = true
-		}
-		if g == "moved" {
-			d["redirect"] = "https://elsewhere.example/group/moved/"
-		}
-		s.WriteGroup(g, d)
+		s.WriteGroup(g, groupDescOf(i))
 	}
+}
+
+var faultMu sync.Mutex
+var faultN atomic.Int64
+
+// fault: the description file of a group is unreadable for a moment (a half-written edit)
+// and somebody tries to join just then; afterwards the file is what it was.  The members of
+// the group must stay where they are: later joiners must meet them.
+func (sc *scenario) fault(r *rand.Rand) {
+	faultMu.Lock()
+	defer faultMu.Unlock()
+	i := r.IntN(3)
+	g := groupNames[i]
+	file := sc.srv.GroupFile(g)
+	sc.note(fmt.Sprintf("the description of %s is unreadable for a moment; a stranger tries to join", g))
+	os.WriteFile(file+".tmp-harness", []byte("{\"users\": {\"op1\": "), 0o644)
+	os.Rename(file+".tmp-harness", file)
+	if c, err := vclient.Dial(sc.srv, fmt.Sprintf("fault%d", faultN.Add(1))); err == nil {
+		if m, ok := c.Join(g, "op1", "pw-op1"); ok && m.Str("kind") == "join" {
+			sc.run.Count("joins_admitted_with_unreadable_description", 1)
+			c.Leave(g)
+		}
+		c.Close()
+	}
+	sc.srv.WriteGroup(g, groupDescOf(i))
+	sc.run.Count("description_faults", 1)
 }
 
 type userInfo struct {
@@ -541,6 +572,10 @@ func (sc *scenario) storm(r *rand.Rand, cycles int) {
 }
 
 func (sc *scenario) act(s *slot, r *rand.Rand) {
+	if r.IntN(40) == 0 {
+		sc.fault(r)
+		return
+	}
 	if s.c != nil {
 		if closed, _ := s.c.Closed(); closed {
 			s.c, s.joined = nil, false
